@@ -70,6 +70,7 @@ func (c *c07) Cases(tier string, seed int64) []core.Case {
 	cs = append(cs, core.MkCase("singular-constructed", c07Params{Mode: "singular", Seed: r.Int63()}))
 	cs = append(cs, core.MkCase("singular-search", c07Params{Mode: "singular-search", Seed: r.Int63(), Trials: map[string]int{"quick": 300, "thorough": 5000}[tier]}))
 	cs = append(cs, core.MkCase("limits", c07Params{Mode: "limits", Seed: r.Int63()}))
+	cs = append(cs, core.MkCase("zero-pivot-constructed", c07Params{Mode: "zero-pivot", Seed: r.Int63()}))
 	return cs
 }
 
@@ -378,6 +379,60 @@ func (c *c07) Run(cs core.Case) core.Result {
 		}
 		r.Count("constructed_singular_cases", int64(found))
 		r.Sample(map[string]interface{}{"mode": "singular", "constructed": found, "example": "constants 2^n, 2^(n+257) with recovery exponents e, e+255"})
+	case "zero-pivot":
+		// Non-singular systems whose leading 2x2 block is singular, so that the
+		// elimination meets a zero pivot and has to swap rows: constants with
+		// n differing by 257*k under exponents e, e+255, plus a third column/row.
+		idxOfN := map[int]int{}
+		k := 0
+		for n := 0; n < 65535 && k < 32768; n++ {
+			if n%3 != 0 && n%5 != 0 && n%17 != 0 && n%257 != 0 {
+				idxOfN[n] = k
+				k++
+			}
+		}
+		d, pc := 300, 266
+		coder, err := rsec16.NewCoderPAR2Vandermonde(d, pc, 3)
+		if err != nil {
+			r.Violate("newcoder-error", "%v", err)
+			return r.Done()
+		}
+		data := randShards(rng, d, 6)
+		parity := c.genParity(r, "vandermonde", coder, data, pc, false)
+		if parity == nil {
+			return r.Done()
+		}
+		tried := 0
+		for n1 := 1; n1 < 300 && tried < 60; n1++ {
+			i1, ok1 := idxOfN[n1]
+			i2, ok2 := idxOfN[n1+257]
+			if !ok1 || !ok2 || i2 >= d {
+				continue
+			}
+			for _, e1 := range []int{0, 2, 5} {
+				third := rng.Intn(d)
+				for third == i1 || third == i2 {
+					third = rng.Intn(d)
+				}
+				miss := []int{i1, i2, third}
+				sortInts(miss)
+				avail := []int{e1, e1 + 255, e1 + 256}
+				before := r.Done().Counters["singular_systems"]
+				c.trial(r, "vandermonde", coder, d, pc, 3, data, parity, miss, avail, false)
+				if r.Done().Counters["singular_systems"] == before {
+					r.Count("zero_pivot_nonsingular_systems", 1)
+				}
+				// and with a fourth erasure
+				fourth := rng.Intn(d)
+				if !isIn(fourth, miss) {
+					m4 := append(append([]int(nil), miss...), fourth)
+					sortInts(m4)
+					c.trial(r, "vandermonde", coder, d, pc, 3, data, parity, m4, []int{e1, e1 + 255, e1 + 256, e1 + 257}, false)
+				}
+				tried++
+			}
+		}
+		r.Sample(map[string]interface{}{"mode": "zero-pivot", "systems": tried, "example": "missing slices with constants 2^n, 2^(n+257) + one more; exponents e, e+255, e+256"})
 	case "singular-search":
 		// Random small sub-systems of large codes: look for singular
 		// ones by reference and run whatever is found plus controls.
